@@ -395,8 +395,9 @@ def cfg_c20(rng):
     p = prof_base(rng, versions=rng.choice([[2], [2], [1, 2]]), p_rmindex=0.1)
     if p['times']:
         p['time_mode'] = 'mono'     # Check (which a backup must pass) is only claimed for non-decreasing times
-    p['weights'] = w(backup=25, pub=45, reopen=6)
+    p['weights'] = w(backup=25, pub=45, reopen=9)
     p['weights']['del'] = 8
+    p['bk_over_reopen'] = True
     return p
 
 
